@@ -78,18 +78,25 @@ def e2e_calls(L):
     return out
 
 
-def record_e2e(L, calls):
-    """Execute the public calls with a recorder on Function.resolve_method.  Returns (events, escapes)."""
-    import plum
-    from plum.function import Function
-    T = L.t
-    fnames = {id(f): n for n, f in T.fs.items()}
-    events, escapes = [], []
-    orig = Function.resolve_method
-    cur = {"tid": None}
+class Recorder:
+    """Recorder on plum's Function.resolve_method (calls the original, records every resolution event).
 
-    def arg_rec(v, first):
-        inst = sorted(i + 1 for i, h in enumerate(T.hints) if plum._is_bearable(v, h))
+    An argument is recorded abstractly as the set of registered type hints it is an instance of plus (for the
+    first argument) the set of conditional signatures whose condition it satisfies - exactly the facts the
+    resolver model uses."""
+
+    def __init__(self, T):
+        import plum
+        from plum.function import Function
+        self.T, self.plum, self.Function = T, plum, Function
+        self.fnames = {id(f): n for n, f in T.fs.items()}
+        self.events = []
+        self.tid = None
+        self.orig = None
+
+    def arg_rec(self, v, first):
+        T = self.T
+        inst = sorted(i + 1 for i, h in enumerate(T.hints) if self.plum._is_bearable(v, h))
         ct = []
         if first:
             for gi, s in enumerate(T.sigs):
@@ -101,35 +108,53 @@ def record_e2e(L, calls):
                         pass
         return {"inst": inst, "condtrue": ct}
 
-    def wrapped(self, target):
-        name = fnames.get(id(self))
-        if name is None or not isinstance(target, tuple):
-            return orig(self, target)
-        ev = {"tid": cur["tid"], "f": name,
-              "args": [arg_rec(v, k == 0) for k, v in enumerate(target)]}
-        try:
-            res = orig(self, target)
-        except plum.AmbiguousLookupError:
-            ev.update(tag="ambiguous", rule=0)
-            events.append(ev)
-            raise
-        except plum.NotFoundLookupError:
-            ev.update(tag="notfound", rule=0)
-            events.append(ev)
-            raise
-        sig = res[2]
-        rule = next((gi + 1 for gi, s in enumerate(T.sigs) if s["sig"] is sig), -1)
-        ev.update(tag="ok", rule=rule)
-        events.append(ev)
-        return res
+    def install(self):
+        rec, plum, T = self, self.plum, self.T
+        orig = self.orig = self.Function.resolve_method
 
-    Function.resolve_method = wrapped
+        def wrapped(self, target):
+            name = rec.fnames.get(id(self))
+            if name is None or not isinstance(target, tuple):
+                return orig(self, target)
+            ev = {"tid": rec.tid, "f": name, "args": [rec.arg_rec(v, k == 0) for k, v in enumerate(target)]}
+            try:
+                res = orig(self, target)
+            except plum.AmbiguousLookupError:
+                ev.update(tag="ambiguous", rule=0)
+                rec.events.append(ev)
+                raise
+            except plum.NotFoundLookupError:
+                ev.update(tag="notfound", rule=0)
+                rec.events.append(ev)
+                raise
+            sig = res[2]
+            rule = next((gi + 1 for gi, s in enumerate(T.sigs) if s["sig"] is sig), -1)
+            ev.update(tag="ok", rule=rule)
+            rec.events.append(ev)
+            return res
+
+        self.Function.resolve_method = wrapped
+
+    def uninstall(self):
+        if self.orig is not None:
+            self.Function.resolve_method = self.orig
+            self.orig = None
+
+    def clear_caches(self):
+        for f in self.T.fs.values():
+            f._cache.clear()
+
+
+def record_e2e(L, calls):
+    """Execute the public calls with a recorder on Function.resolve_method.  Returns (events, escapes)."""
+    import warnings
+    rec = Recorder(L.t)
+    escapes = []
+    rec.install()
     try:
-        import warnings
         for tid, (name, thunk) in enumerate(calls):
-            cur["tid"] = name
-            for f in T.fs.values():
-                f._cache.clear()
+            rec.tid = name
+            rec.clear_caches()
             try:
                 with warnings.catch_warnings():
                     warnings.simplefilter("ignore")
@@ -140,8 +165,39 @@ def record_e2e(L, calls):
             except Exception:  # noqa: BLE001   outside this property
                 pass
     finally:
-        Function.resolve_method = orig
-    return events, escapes
+        rec.uninstall()
+    return rec.events, escapes
+
+
+def start_suite(wd):
+    """Run the repository's own NumPy tests under the recorder (separate process, concurrently with the TLC runs)."""
+    import subprocess
+    import sys
+    import cola
+    root = os.path.dirname(os.path.dirname(os.path.abspath(cola.__file__)))
+    if not os.path.isdir(os.path.join(root, "tests")):
+        return None
+    env = dict(os.environ)
+    env["VERIF_DISPATCH_EVENTS"] = os.path.join(wd, "suite_events.ndjson")
+    env["PYTHONPATH"] = os.pathsep.join(p for p in sys.path if p)
+    return subprocess.Popen([sys.executable, "-B", "-m", "pytest", "-q", "-p", "no:cacheprovider", "-p",
+                             "harness.pytest_dispatch_rec", "--timeout=900", "-k", "numpy", "tests"], cwd=root, env=env,
+                            stdout=subprocess.DEVNULL, stderr=subprocess.DEVNULL)
+
+
+def collect_suite(proc, wd, T):
+    from ..pytest_dispatch_rec import table_fingerprint
+    if proc is None:
+        return None, []
+    proc.wait(timeout=1800)
+    path = os.path.join(wd, "suite_events.ndjson")
+    if not os.path.exists(path):
+        raise tla.TLCError("the recorded run of the repository's test-suite wrote no event file")
+    lines = [json.loads(x) for x in open(path)]
+    meta, evs = lines[0], lines[1:]
+    if meta.get("table_fp") != table_fingerprint(T):
+        raise tla.TLCError("rule table extracted in the test-suite process differs from the checker's")
+    return meta, evs
 
 
 def run(tier):
@@ -152,7 +208,9 @@ def run(tier):
     viol = []
     # (1) TLC on the lattice
     wd = tla.make_build_dir(PROP)
+    suite = None
     try:
+        suite = start_suite(wd)
         table_text = L.render()
         res = tla.run_tlc("MC_Dispatch", "SPECIFICATION Spec\nCONSTANTS\n Block = 64\n DoEmit = TRUE\nINVARIANT Emit\n",
                           wd, gen_files={"RuleTable.tla": table_text})
@@ -187,6 +245,15 @@ def run(tier):
         for name, ex, msg in escapes:
             viol.append(Violation(PROP, "escape", name, {"exc": ex, "f": name.split("(")[0]}, f"{ex}: {msg}",
                                   replay={"e2e": name}))
+        n_e2e = len(events)
+        suite_meta, suite_events = collect_suite(suite, wd, T)
+        suite = None
+        events = events + suite_events
+        for e in suite_events:
+            if e["tag"] == "ambiguous":
+                viol.append(Violation(PROP, "suite-ambiguous", f"{e['tid'][:80]} :: {e['f']}", {"f": e["f"], "tag_real": e["tag"]},
+                                      "a call made by the repository's own test-suite resolves ambiguously",
+                                      replay={"event": e}))
         tpath = os.path.join(wd, "events.ndjson")
         with open(tpath, "w") as fh:
             for e in events:
@@ -221,6 +288,8 @@ def run(tier):
             if not neg_ok:
                 common.machinery_failure(PROP, "negative control (corrupted event) was accepted by Trace_Dispatch")
     finally:
+        if suite is not None:
+            suite.kill()
         common.cleanup(wd)
         os.environ.pop("TRACE_FILE", None)
     by_f = {}
@@ -240,7 +309,11 @@ def run(tier):
         "lattice_points": len(L.calls), "lattice_by_function": by_f,
         "signatures": len(T.sigs), "type_hints": len(T.hints), "samples_count": len(L.recs),
         "model_vs_real_resolver_disagreements": drift,
-        "e2e_public_calls": len(calls), "e2e_resolution_events": len(events), "e2e_events_rejected": len(rejected),
+        "e2e_public_calls": len(calls), "e2e_resolution_events": n_e2e,
+        "repo_suite_distinct_resolution_events": len(suite_events),
+        "repo_suite_raw_resolution_events": (suite_meta or {}).get("raw_events"),
+        "repo_suite_tests_with_events": (suite_meta or {}).get("tests_with_events"),
+        "repo_suite_tests_passed_under_recorder": (suite_meta or {}).get("passed"), "e2e_events_rejected": len(rejected),
         "negative_controls_rejected": 1 if neg_ok else 0,
         "order_dependence": sum(1 for k in range(1, len(L.calls) + 1)
                                 if sorted(model[k]["cands"]) != sorted(model[k]["minimal"])),
